@@ -145,7 +145,7 @@ fn main() {
                                 }
                                 let cfg = p.cfg.lock().unwrap().clone();
                                 let system = cfg.as_ref().map(|c| c.system).unwrap_or("?");
-                                let attributed = if system.starts_with("ring.") { "C19" } else if system.starts_with("ds.") { "C20" } else { "C01" };
+                                let attributed = cfg.as_ref().map(core::panic_property).unwrap_or("C01");
                                 let doc = json!({
                                     "engine": "E-SEQ", "property": prop, "tier": tier, "runs": [], "violations": 1,
                                     "hang": {"attributed_to": attributed, "config_json": cfg.as_ref().map(|c| c.to_json()), "config": cfg.as_ref().map(|c| c.label()),
